@@ -188,8 +188,8 @@ def rule_seeding(ctx, p, cfg, rid="Z3"):
             cons = []
             for sb, si, al in g.conditions(block):
                 labs = {si.label(v) for v, _ in al}
-                if labs <= {True, False}:
-                    cons.append((_ds_bool(si.discr), labs))
+                if labs <= {True, False} and si.is_bool:
+                    cons.append((_ds_bool(q.bool_value(g, g.term(sb)["discr"])), labs))
             def unnot(x):
                 neg = False
                 while x[0] == "un" and x[1] == "Not":
